@@ -75,7 +75,7 @@ func Families(tier string) []Family {
 	// conserve: every token kind x unknown mode x require-order x a two-level command tree
 	{
 		f := Family{Name: "conserve"}
-		toks := Ts("a", "--", "-", "", "--b", "--s", "--s=v", "--l", "--u", "--u=v", "-bu", "-uw", "-usw", "cmd", "sub")
+		toks := Ts("a", "--", "-", "", "--b", "--s", "--s=v", "--l", "--u", "--u=v", "-bu", "-uw", "-usw", "cmd", "sub", "--=x") // --=x: the (undeclared) lone dash option with a value
 		for mode := 0; mode < 3; mode++ {
 			for um := 0; um < 3; um++ {
 				for _, ro := range []bool{false, true} {
@@ -142,10 +142,10 @@ func Families(tier string) []Family {
 			toks       []Tok
 		}
 		for _, m := range []mk{
-			{"multi-ss", "sslice", Ts("--l", "--l=v", "v", "w", "--b", "--", "-", "cmd", "-x", "", "-lb", "-bl")}, // bundles: a letter still taking values looks ahead at the next bundle
+			{"multi-ss", "sslice", Ts("--l", "--l=v", "v", "w", "--b", "--", "-", "cmd", "-x", "", "-lb", "-bl", "-=x")}, // -=x is not an option token: it is a value; bundles: a letter still taking values looks ahead at the next bundle
 			{"multi-is", "islice", Ts("--l", "--l=1", "--l=1..3", "1", "2", "1.5", "1..3", "3..1", "x", "--b", "--", "99999999999999999999", "010")},
 			{"multi-fs", "fslice", Ts("--l", "--l=0.1", "--l=x", "1.5", "2", "1e-320", "x", "--b", "--")},
-			{"multi-sm", "smap", Ts("--l", "--l=k=v", "k=v", "k=w=z", "K=v", "j=1", "x", "--b", "--")},
+			{"multi-sm", "smap", Ts("--l", "--l=k=v", "k=v", "k=w=z", "K=v", "j=1", "x", "--b", "--", "-=x")},
 		} {
 			f := Family{Name: m.name}
 			for gi, g := range grid {
@@ -232,6 +232,14 @@ func Families(tier string) []Family {
 					f.Defs = append(f.Defs, Def{Cfg: c, Tokens: toks, L: lim(tier, 3, 5)})
 				}
 			}
+		}
+		// Bundling: a typed list letter followed by a valued letter in one bundle; the word that ends the list's intake is
+		// the other letter's value, and the `--` behind it is the terminator
+		{
+			c := Cfg{Mode: 1}
+			c.Nodes = []NodeCfg{rootNode(2, false)}
+			c.Opts = []OptCfg{multi("islice", "n", 1, 1, 2), opt("string", "s", 1), opt("bool", "b", 1), multi("smap", "m", 1, 1, 2), opt("sopt", "o", 1)}
+			f.Defs = append(f.Defs, Def{Cfg: c, Tokens: Ts("-ns", "-mo", "1", "foo", "--", "--b"), L: 5})
 		}
 		fams = append(fams, f)
 	}
@@ -378,7 +386,7 @@ func Families(tier string) []Family {
 	// before or after the commands are declared (C07)
 	{
 		f := Family{Name: "modes"}
-		toks := Ts("-xy", "-xyz", "-xys", "-xys=v", "-s=v", "-sv", "-é", "-üv", "-xq", "--xy", "--s=v", "v", "-x", "-s", "-sx", "-s\xffv", "cmd", "-s=:v", "-s==v")
+		toks := Ts("-xy", "-xyz", "-xys", "-xys=v", "-s=v", "-sv", "-é", "-üv", "-xq", "--xy", "--s=v", "v", "-x", "-s", "-sx", "-s\xffv", "cmd", "-s=:v", "-s==v", "-s=")
 		for mode := 0; mode < 3; mode++ {
 			for _, um := range []int{0, 2} {
 				for _, late := range []bool{false, true} {
@@ -577,7 +585,7 @@ func Families(tier string) []Family {
 				toks = append(toks, T("--o=false"), T("--o=true"))
 			}
 			// for a bool only the words true / false (any case) count; what strconv.ParseBool would also accept does not
-			for ei, ev := range []string{"<unset>", "", k.valid, k.invalid, k.mixed, k.deflt, "false", "FALSE", "1", "0", "t", "F"} {
+			for ei, ev := range []string{"<unset>", "", k.valid, k.invalid, k.mixed, k.deflt, "false", "FALSE", "1", "0", "t", "F", "fal\u017fe", "\u212aelvin"} {
 				if ei >= 6 && k.kind != "bool" {
 					continue
 				}
@@ -624,7 +632,7 @@ func Families(tier string) []Family {
 	{
 		f := Family{Name: "complete"}
 		toks := Ts("--f", "--fl", "--flag", "--p", "--profile", "--profile=", "--profile=p", "--level=", "--level=d", "-", "--",
-			"l", "lo", "log", "s", "show", "h", "help", "", "--lo", "x", "-fs", "-l")
+			"l", "lo", "log", "s", "show", "h", "help", "", "--lo", "x", "-fs", "-l", "-l=", "-l=d")
 		for mode := 0; mode < 3; mode++ {
 			for variant := 0; variant < 2; variant++ {
 				c := Cfg{Mode: mode}
